@@ -39,6 +39,13 @@ CLAIMED.update({
    note="Execution equivalence is checked for the default predicate only (a custom predicate may legitimately share temporaries). Origin of fused statements is taken from list position (first method's statements come first)."),
 })
 
+CLAIMED.update({
+ "C13": dict(engine="E-name", level="exploration", design_ref="DESIGN.md §4 E-name / C13",
+   technique="deterministic simulation of lookup histories: seeded operation sequences against the real name managers, model of an injective, stable, legal mapping checked after every operation, compiler probes",
+   text="Seeded adversarial name pools (punctuation/case twins, names equal to generated identifiers, tagged names, empty-after-sanitising names, 60..200 character names and long twins) and seeded histories of 5..60 operations (lookups through every entry point, repeated lookups, clear_locals, unique-name requests, refcount names, is_known queries) against the real PythonNameManager and FortranNameManager; after every operation a model checks legality (N1), pairwise distinctness of live identifiers, case-folded for Fortran (N2), distinctness from reserved identifiers (N3), stability (N4) and storage class by an independent persistent-name classification (N5). Every 8th quick run and every thorough run hands all live identifiers to compile() / gfortran -fsyntax-only.",
+   note="The only simulator-owned dimension is the operation history (no fault beyond reordering/repetition). FortranNameManager.name_function is not used by the generator, so it is exercised for distinctness/legality but not against the reserved list. User names never start with dagrt_ (documented as reserved)."),
+})
+
 NOT_APPLICABLE = {
  "C06": "pure tree->tree function (simplify_ast) quantified over trees x truth assignments: no schedule, history, fault or configuration for a simulator to own; reached only indirectly through C01/C05",
  "C07": "rewriting passes are pure structured-program->structured-program functions run top to bottom; nothing to schedule or inject; reached only indirectly through C03",
